@@ -96,6 +96,59 @@ Qed.
 Lemma py_slice_full {A} (l : list A) : py_slice l None None = l.
 Proof. unfold py_slice. simpl. rewrite Nat.sub_0_r. apply firstn_all. Qed.
 
+(* ---- slicing and + undo each other ---- *)
+Lemma clamp_slice_le len x d : (d <= len)%nat -> (clamp_slice len x d <= len)%nat.
+Proof.
+  intros Hd. unfold clamp_slice. destruct x as [v|]; [|exact Hd].
+  set (w := if v <? 0 then v + Z.of_nat len else v).
+  destruct (w <? 0) eqn:E2; [lia|].
+  destruct (Z.of_nat len <? w) eqn:E3; [lia|].
+  apply Z.ltb_ge in E2, E3. lia.
+Qed.
+
+(* s[:k] + s[k:] == s for EVERY integer k (negative and out of range included) *)
+Lemma py_slice_split {A} (l : list A) (k : Z) :
+  py_slice l None (Some k) ++ py_slice l (Some k) None = l.
+Proof.
+  unfold py_slice.
+  pose proof (clamp_slice_le (length l) (Some k) (length l) (le_n _)) as H1.
+  assert (H0 : clamp_slice (length l) (Some k) 0%nat = clamp_slice (length l) (Some k) (length l))
+    by reflexivity.
+  rewrite H0. set (c := clamp_slice (length l) (Some k) (length l)) in *.
+  cbn [clamp_slice]. rewrite Nat.sub_0_r. cbn [skipn].
+  rewrite (firstn_all2 (skipn c l)) by (rewrite skipn_length; lia).
+  apply firstn_skipn.
+Qed.
+
+(* (s + t)[:len s] == s and (s + t)[len s:] == t *)
+Lemma py_slice_app_left {A} (s t : list A) :
+  py_slice (s ++ t) None (Some (Z.of_nat (length s))) = s.
+Proof.
+  unfold py_slice. cbn [clamp_slice]. rewrite app_length.
+  destruct (Z.ltb_spec (Z.of_nat (length s)) 0) as [E1|E1]; [lia|].
+  destruct (Z.ltb_spec (Z.of_nat (length s)) 0) as [E1'|_]; [lia|].
+  destruct (Z.ltb_spec (Z.of_nat (length s + length t)) (Z.of_nat (length s))) as [E2|E2]; [lia|].
+  rewrite Nat2Z.id, Nat.sub_0_r. cbn [skipn].
+  rewrite firstn_app, Nat.sub_diag, firstn_all. cbn [firstn]. apply app_nil_r.
+Qed.
+
+Lemma py_slice_app_right {A} (s t : list A) :
+  py_slice (s ++ t) (Some (Z.of_nat (length s))) None = t.
+Proof.
+  unfold py_slice. cbn [clamp_slice]. rewrite app_length.
+  destruct (Z.ltb_spec (Z.of_nat (length s)) 0) as [E1|E1]; [lia|].
+  destruct (Z.ltb_spec (Z.of_nat (length s)) 0) as [E1'|_]; [lia|].
+  destruct (Z.ltb_spec (Z.of_nat (length s + length t)) (Z.of_nat (length s))) as [E2|E2]; [lia|].
+  rewrite Nat2Z.id. rewrite skipn_app, Nat.sub_diag, skipn_all. cbn [skipn app].
+  apply firstn_all2. lia.
+Qed.
+
+Lemma st_slice_split_photons (s : state) (k : Z) :
+  st_n_photons (st_slice s None (Some k)) + st_n_photons (st_slice s (Some k) None) = st_n_photons s.
+Proof.
+  rewrite <- st_n_photons_add. unfold st_add, st_slice. rewrite py_slice_split. reflexivity.
+Qed.
+
 (* ---- heralds: insertion then removal ---- *)
 Fixpoint keep_idx {A} (i : nat) (keep : nat -> bool) (l : list A) : list A :=
   match l with
